@@ -28,6 +28,9 @@ var gridNames = map[string]func() []group{
 	"grid-context":   gridContext,
 	"grid-fail":      gridFail,
 	"grid-cancel":    gridCancel,
+	"grid-underany":  gridUnderAny,
+	"grid-datetime":  gridDatetime,
+	"grid-regex":     gridRegex,
 }
 
 func isGrid(name string) bool { _, ok := gridNames[name]; return ok }
@@ -46,7 +49,11 @@ func gridSample(name string, seed int64, n int) []group {
 var gridNums = []string{"0", "1", "-1", "2", "3", "7", "-7", "10", "2147483647", "2147483648", "-2147483648", "-2147483649",
 	"4611686018427387904", "9007199254740992", "9007199254740993", "9223372036854775807", "-9223372036854775808",
 	"0.5", "1.5", "2.5", "-2.5", "-0.5", "0.1", "3.7", "1e19", "1e308", "5e-324", "1e-7", "9223372036854775808", "1e21",
-	"0.9999999999", "2.9999999999", "1E2", "-1E3", "5E-1", "1.0E2", "-0", "0.0", "1e400"}
+	"0.9999999999", "2.9999999999", "1E2", "-1E3", "5E-1", "1.0E2", "-0", "0.0", "1e400",
+	bigDigits, "-" + bigDigits, "1e-400", "123456789012345678901234567890", "0.0000000000000000000000000000001"}
+
+// bigDigits is a syntactically valid JSON number without exponent that is outside float64 range.
+var bigDigits = "1" + strings.Repeat("0", 400)
 
 func numReprs(text string) []any {
 	var out []any
@@ -92,7 +99,8 @@ func gridArith() []group {
 
 func gridCompare() []group {
 	var vals []any
-	for _, t := range []string{"0", "1", "-1", "2", "1.5", "9007199254740992", "9007199254740993", "9223372036854775807", "9223372036854775808", "-9223372036854775808", "1e400", "0.1", "-0", "1E2", "100"} {
+	for _, t := range []string{"0", "1", "-1", "2", "1.5", "9007199254740992", "9007199254740993", "9223372036854775807", "9223372036854775808", "-9223372036854775808", "1e400", "0.1", "-0", "1E2", "100",
+		bigDigits, "-" + bigDigits, "123456789012345678901234567890", bigDigits + ".5"} {
 		vals = append(vals, numReprs(t)...)
 	}
 	for _, s := range []string{"", "a", "ab", "b", "A", "é", "z", "10", "9", "a\u0000"} {
@@ -401,6 +409,108 @@ func gridCancel() []group {
 	var gs []group
 	for _, t := range paths {
 		gs = append(gs, group{t, doc, vars})
+	}
+	return gs
+}
+
+// gridUnderAny: steps whose behaviour depends on the mode (strict/lax) evaluated below an accessor
+// that changes the executor's structural-error flag (`.**`) or not (`.*`, `[*]`, `$`): in strict
+// mode the predicate rules (all pairs, complete operand sequences) must not follow that flag.
+func gridUnderAny() []group {
+	prefixes := []string{"$.**", "$.**{1}", "$.**{1 to last}", "$.**{0 to 1}", "$.**{2}", "$.**{2 to last}", "$.*", "$[*]", "$", "$.k", "$.**{1}.**{1}", "$.*.**"}
+	suffixes := []string{
+		" ? (@[*] == 1)", " ? (1 == @[*])", " ? (@[*] > 0)", " ? (@[*] != 1)", " ? (@[*] starts with \"a\")", " ? (@[*] like_regex \"^a\")",
+		" ? (exists(@[*].double()))", " ? (exists(@[*].integer()))", " ? (exists(@.a.b))", " ? (exists(@[*].a))", " ? ((@[*] == 1) is unknown)",
+		" ? (exists(@[*].double()) || false)", " ? (exists(@[*].double()) && true)", " ? ((exists(@[*].double())) is unknown)", " ? (!(@[*] == 1))",
+		" ? (@.a == 1)", " ? (@.a.b == 1)", " ? (@[0] == 1)", " ? (@[1] == \"x\")", " ? (@[*].a == 2)", " ? (@.size() > 1)", " ? (@.type() == \"array\")",
+		".a.b", ".a", ".a[0]", "[0].a", "[0]", "[1]", "[*].a", ".*.a", ".a.b.c", ".keyvalue().key", ".keyvalue().value.a", ".size()", ".a.double()", "[*].double()",
+		" ? (exists(@.keyvalue().key)).keyvalue()", " ? (exists(@.keyvalue() ? (@.value == 1))).keyvalue().key", " ? (exists(@.keyvalue().key)).a",
+		" ? (@.a == 1).keyvalue()", ".keyvalue().keyvalue()", " ? (exists(@[*] ? (@.double() > 0)))", " ? (@[*].double() > 0)", ".a ? (@.b == 1)", " ? (@.a > 0).a.b",
+	}
+	docs := []any{
+		map[string]any{"k": []any{float64(1), "x"}},
+		map[string]any{"k": []any{"1", "x"}},
+		map[string]any{"k": []any{"x", "1"}},
+		map[string]any{"x": map[string]any{"a": map[string]any{"b": float64(1)}}, "y": map[string]any{"a": float64(2)}},
+		[]any{[]any{float64(1), "x"}, []any{"a", float64(1)}},
+		map[string]any{"k": []any{"a", float64(1), "ab"}, "a": float64(1)},
+		[]any{map[string]any{"a": float64(1)}, map[string]any{"a": map[string]any{"b": float64(1)}}, []any{map[string]any{"a": float64(2)}}},
+		map[string]any{"k": map[string]any{"a": []any{map[string]any{"b": float64(1)}, float64(3)}}, "a": map[string]any{"b": map[string]any{"c": float64(1)}}},
+		[]any{float64(1), "x", []any{"1"}},
+	}
+	var gs []group
+	for _, pre := range prefixes {
+		for _, suf := range suffixes {
+			for _, mode := range []string{"", "strict "} {
+				for _, d := range docs {
+					gs = append(gs, group{mode + pre + suf, d, nil})
+				}
+			}
+		}
+	}
+	return gs
+}
+
+// dtZones are the context zones of grid-datetime (a "#zone=…;usetz=…#" prefix of the group text
+// selects zone and WithTZ; execStream strips it).
+var dtZones = []string{"UTC", "America/New_York", "Australia/Lord_Howe", "Europe/Berlin", "fixed:19800", "fixed:-16200"}
+
+// gridDatetime: pairs of datetime strings x pairs of methods x comparison operators, with named
+// context zones and values inside DST gaps and overlaps of those zones; the same string under two
+// different methods in one execution.
+func gridDatetime() []group {
+	strs := []any{
+		"2024-03-10", "2024-03-10T02:30:00", "2024-03-10T01:30:00.5", "2024-03-10T06:30:00.2Z", "2024-03-10T07:30:00+00:00", "2024-03-10T03:30:00-04:00",
+		"2024-11-03T01:30:00", "2024-11-03T05:30:00Z", "2024-11-03T06:30:00+00", "2024-11-03T01:30:00-04:00", "2024-11-03T01:30:00-05:00", "2024-11-03",
+		"01:30:00", "02:30:00", "01:30:00-05", "12:00:00+05:30", "2015-08-02", "2015-08-02T00:00:00-04:00", "2015-08-02T00:00:00", "2023-12-31T23:59:59.999999",
+		"2024-01-01T00:00:00+14:00", "2024-10-06", "2024-10-06T02:15:00", "2024-10-05T15:30:00Z", "2024-03-31T02:30:00", "2024-03-31T01:30:00+01:00", "00:00:00", "23:59:59.9999995",
+	}
+	methods := []string{"datetime()", "date()", "time()", "time_tz()", "timestamp()", "timestamp_tz()"}
+	var texts []string
+	for j := range strs {
+		for _, m1 := range methods {
+			for _, m2 := range methods {
+				for _, op := range []string{"==", "<", ">="} {
+					texts = append(texts, fmt.Sprintf("$[*] ? (@.%s %s $[%d].%s)", m1, op, j, m2))
+				}
+				texts = append(texts, fmt.Sprintf("$[%d].%s == $[%d].%s", j, m1, j, m2), fmt.Sprintf("$[%d].%s < $[%d].%s", j, m1, j, m2))
+			}
+		}
+		texts = append(texts, fmt.Sprintf("$[%d].datetime().type()", j), fmt.Sprintf("$[%d].timestamp_tz().string()", j), fmt.Sprintf("$[%d].timestamp(2).string()", j),
+			fmt.Sprintf("$[%d].date().string()", j), fmt.Sprintf("$[%d].time_tz(0).string()", j), fmt.Sprintf("$[%d].time().string()", j), fmt.Sprintf("$[%d].datetime().string()", j))
+	}
+	for _, m1 := range methods {
+		for _, m2 := range methods {
+			texts = append(texts, fmt.Sprintf("$[*] ? (@.%s == @.%s)", m1, m2), fmt.Sprintf("$[*] ? (@.%s <= @.%s || @.%s > @.%s)", m1, m2, m1, m2),
+				fmt.Sprintf("$[*] ? ((@.%s == @.%s) is unknown)", m1, m2))
+		}
+	}
+	var gs []group
+	for _, t := range texts {
+		for _, z := range dtZones {
+			for _, u := range []string{"0", "1"} {
+				gs = append(gs, group{"#zone=" + z + ";usetz=" + u + "#" + t, strs, nil})
+			}
+		}
+	}
+	return gs
+}
+
+// gridRegex: like_regex over patterns, flags and subjects with non-ASCII case folding.
+func gridRegex() []group {
+	subjects := []any{"s", "\u017f", "S", "\u03c3", "\u03c2", "\u03a3", "\u00b5", "\u03bc", "\u039c", "i", "I", "\u0130", "\u0131", "k", "K", "\u212a", "\u00df", "ss", "SS",
+		"aXc", "a.c", "A.C", "a\nc", "\u00e9", "\u00c9", "e\u0301", "ab", "a|b", "", "a b", "AB", "\u01c5", "\u01c4", "\u01c6"}
+	pats := []string{"s", "\u017f", "\u03c3", "\u03c2", "\u00b5", "\u03bc", "i", "\u0130", "\u0131", "k", "\u212a", "ss", "\u00df", "a.c", "A.C", "\u00e9", "\u00c9", "^a", "c$", "a|b", ".", "a b", " a b ", "[a-c]+", "^.$", "^..$", "\u01c5", "\u01c6", "(?i)s", "\\\\d", "A # x"}
+	flags := []string{"", "i", "q", "iq", "qi", "x", "ix", "s", "m", "sm", "iqx", "is"}
+	var gs []group
+	for _, p := range pats {
+		for _, f := range flags {
+			t := "like_regex " + quoteStr(p)
+			if f != "" {
+				t += " flag " + quoteStr(f)
+			}
+			gs = append(gs, group{"$[*] ? (@ " + t + ")", subjects, nil}, group{"strict $[*] ? (!(@ " + t + "))", subjects, nil}, group{"$[0] " + t, []any{subjects[len(p)%len(subjects)]}, nil})
+		}
 	}
 	return gs
 }
